@@ -140,6 +140,13 @@ def case_methods(case):
         res["disagree"] = []
         return res
     # oracle: the three are the same run
+    if "collect(" in case["match"]:
+        # (lines narrowed by the collect() function are built anew for the caller: the lists next() hands out must still hold their
+        #  lines when the run is over)
+        kept, _ = real_run.run_single(text, "nextkeep", policy=case["policy"])
+        if kept.get("lines") != nx.get("lines") and not kept.get("raised") and not nx.get("raised"):
+            res["oracle"].append({"what": "the lines next() yielded do not hold their cells any more once the run is over",
+                                  "kept": kept.get("lines"), "copied_at_once": nx.get("lines")})
     if c.get("lines") != nx.get("lines"):
         res["oracle"].append({"what": "collect() and next() return different lines", "collect": c.get("lines"), "next": nx.get("lines")})
     oc, on, of = observable(c), observable(nx), observable(ff)
